@@ -61,6 +61,10 @@ def run_shard(args):
     workdir = os.path.join(
         core.WORK_ROOT, '{}-{}-{}'.format(args.prop, os.getpid(), args.shard)
     )
+    if args.shard % 4 == 2 or os.environ.get('SPOWTD_VERIF_ODD_PATHS') == '1':
+        # a data directory whose name has characters that mean something in URIs, shells and
+        # format strings: every dataset, input and output file of this shard lives under it
+        workdir = os.path.join(workdir, 'site #2 (50%41 wet) & co?=x {0}')
     os.makedirs(workdir, exist_ok=True)
     ctx = Context(
         args.prop,
@@ -72,6 +76,8 @@ def run_shard(args):
         os.path.join(core.HOME, 'replays'),
     )
     ctx.rec.hit('shards-run-with-the-machine-time-zone-set-to:' + zone)
+    if '#' in workdir:
+        ctx.rec.hit('shards-whose-data-directory-name-has-special-characters')
     if os.environ.get('SPOWTD_VERIF_OPTIMIZE') == '1':
         ctx.rec.hit('shards-run-with-assert-statements-of-spowtd-compiled-away')
     if os.environ.get('SPOWTD_VERIF_WARNINGS') == 'error':
@@ -89,7 +95,7 @@ def run_shard(args):
             )
         )
     finally:
-        shutil.rmtree(workdir, ignore_errors=True)
+        shutil.rmtree(os.path.join(core.WORK_ROOT, '{}-{}-{}'.format(args.prop, os.getpid(), args.shard)), ignore_errors=True)
     from . import data as data_mod
     if data_mod.RELATIVE_CALLS[0]:
         ctx.rec.hit('commands-typed-with-relative-file-names-from-the-data-directory', data_mod.RELATIVE_CALLS[0])
